@@ -183,11 +183,67 @@ Example C07_example_grad : grad_default false [1] [2] [3] [1] [4] [2] = - (3 / 2
 Proof. unfold grad_default. cbn [rdot rzip rsum int_g]. lra. Qed.
 Example C07_example_bound : dy_sin 0 2 0 = 1.
 Proof. unfold dy_sin. rewrite cos_0. lra. Qed.
-(* open finding F13: for the cfit family FCN.grad_hessp returns the DEFAULT-likelihood gradient; the two
-   formulas differ already for one event with a background term (witness): *)
+(* finding F13 (repaired by fix_C07/patch_1: FCN.get_grad_hessp of a model with its own nll_grad_batch but
+   without grad_hessp_batch returns (g, H.p) from the model's own nll_grad_hessian, so that
+   C07_hessp_with_constraint applies to every model): the OLD FCN.grad_hessp returned the DEFAULT-likelihood
+   gradient for the cfit family; the two formulas differ already for one event with a background term (witness): *)
 Example C07_cfit_grad_differs_from_default_grad :
   grad_cfit (1/2) [1] [1] [1] [1/2] 1 0 <> grad_default false [1] [1] [1] [1] [1] [0].
 Proof.
   unfold grad_cfit, grad_default. cbn [cfit_dP cfit_P rzip rdot rsum int_g].
   intros H. field_simplify in H. lra.
 Qed.
+
+(* ---- hunt-fix round ---- *)
+
+(* Gaussian constraints on tied names (var_equal): all constraints whose names share the variable cell theta
+   enter the value (gauss_term), the gradient and the Hessian diagonal of that coordinate (after patch_2) *)
+Theorem C07_gauss_shared_cell_grad_is_derive : forall (ms : list (R * R)) (th : R),
+  is_derive (fun x => gauss_term (gauss_cell x ms)) th (gauss_cell_grad th ms).
+Proof. exact gauss_cell_grad_is_derive. Qed.
+Print Assumptions C07_gauss_shared_cell_grad_is_derive.
+
+Theorem C07_gauss_shared_cell_hess_is_derive : forall (ms : list (R * R)) (th : R),
+  is_derive (fun x => gauss_cell_grad x ms) th (gauss_cell_hess th ms).
+Proof. exact gauss_cell_hess_is_derive. Qed.
+Print Assumptions C07_gauss_shared_cell_hess_is_derive.
+
+Theorem C07_total_shared_is_derive : forall (N : R -> R) (th g : R) (ms : list (R * R)),
+  is_derive N th g ->
+  is_derive (fun x => fcn_total (N x) (gauss_cell x ms)) th (grad_total g (gauss_cell_grad th ms)).
+Proof. exact total_shared_is_derive. Qed.
+Print Assumptions C07_total_shared_is_derive.
+
+(* the OLD get_constrain_grad skipped a constraint keyed by the tied (non-head) name: not the derivative of the value *)
+Theorem C07_gauss_tied_old_refuted :
+  exists (ms : list (bool * (R * R))) (th : R),
+    ~ is_derive (fun x => gauss_term (gauss_cell x (map snd ms))) th (gauss_cell_grad_old th ms).
+Proof. exact gauss_tied_old_refuted. Qed.
+Print Assumptions C07_gauss_tied_old_refuted.
+
+(* Model_cfit.nll with clip_log (patch_5): the stand-alone value is the value returned alongside the gradient *)
+Theorem C07_cfit_value_alongside_equals_standalone : forall (fb : R) (w e f b V eg g bm : list R),
+  rsum w <> 0 -> rsum (sqs w) <> 0 ->
+  cfit_call_clip fb (scale_w w) e f b V eg g bm = cfit_gradval fb (scale_w w) e f b V eg g bm.
+Proof. exact cfit_value_alongside_equals_standalone. Qed.
+Print Assumptions C07_cfit_value_alongside_equals_standalone.
+
+(* the OLD Model_cfit.nll (plain ln) differs from it for an event density below the clip threshold *)
+Theorem C07_cfit_old_value_alongside_refuted :
+  exists (fb : R) (W e f b V eg g bm : list R),
+    scale_w W = W /\ cfit_call fb W e f b V eg g bm <> cfit_gradval fb W e f b V eg g bm.
+Proof. exact cfit_old_value_alongside_refuted. Qed.
+Print Assumptions C07_cfit_old_value_alongside_refuted.
+
+(* fit_improve.Cached_FG NaN repair (patch_7): central difference = derivative + d h^2 on cubics (exact on
+   quadratics); the OLD quotient (f(x+h) - f(x)) / 2h is half the derivative *)
+Theorem C07_cached_fg_central_difference : forall a b c d x h : R, h <> 0 ->
+  is_derive (fun u => d * (u * u * u) + a * (u * u) + b * u + c) x (3 * d * (x * x) + 2 * a * x + b) /\
+  fd_central (fun u => d * (u * u * u) + a * (u * u) + b * u + c) x h = (3 * d * (x * x) + 2 * a * x + b) + d * (h * h).
+Proof. intros a b c d x h Hh. split; [apply fd_central_cubic_is_derive | apply fd_central_cubic; exact Hh]. Qed.
+Print Assumptions C07_cached_fg_central_difference.
+
+Theorem C07_cached_fg_old_refuted :
+  exists (F : R -> R) (x h dF : R), h <> 0 /\ is_derive F x dF /\ fd_old F x h = dF / 2 /\ fd_old F x h <> dF.
+Proof. exact fd_old_refuted. Qed.
+Print Assumptions C07_cached_fg_old_refuted.
